@@ -130,7 +130,7 @@ impl VerifShardDedupProber for Faulty {
 impl ShardClientInterface for Faulty {}
 impl Client for Faulty {}
 
-fn config(base: &std::path::Path) -> Arc<TranslatorConfig> {
+fn config(base: &std::path::Path, salt: u8) -> Arc<TranslatorConfig> {
     let path = base.join("xet");
     std::fs::create_dir_all(&path).unwrap();
     Arc::new(TranslatorConfig {
@@ -147,7 +147,7 @@ fn config(base: &std::path::Path) -> Arc<TranslatorConfig> {
             cache_directory: path.join("shard-cache"),
             session_directory: path.join("shard-session"),
             global_dedup_policy: Default::default(),
-            repo_salt: [0u8; 32],
+            repo_salt: [salt; 32],
         },
         repo_info: Some(RepoInfo { repo_paths: vec!["".into()] }),
     })
@@ -166,7 +166,7 @@ pub fn run(toks: &[&str]) -> Lines {
 async fn run_async(ops: Vec<Vec<String>>, base: PathBuf, tp: Arc<ThreadPool>) -> Lines {
     let mut out: Lines = vec![];
     let why: Arc<Mutex<Vec<String>>> = Arc::new(Mutex::new(vec![]));
-    let cfg = config(&base);
+    let mut cfg = config(&base, 0);
     let mut session: Option<Arc<FileUploadSession>> = None;
     let mut client: Option<Arc<Faulty>> = None;
     let mut errors: Vec<String> = vec![];
@@ -178,6 +178,11 @@ async fn run_async(ops: Vec<Vec<String>>, base: PathBuf, tp: Arc<ThreadPool>) ->
                 let mut plan = Plan::default();
                 for t in &op[1..] {
                     let (k, v) = t.split_once('=').unwrap();
+                    if k == "salt" {
+                        // another repository salt: the same bytes get another file hash, while their chunks are known
+                        cfg = config(&base, v.parse().unwrap());
+                        continue;
+                    }
                     for x in v.split(',').filter(|x| !x.is_empty() && *x != "-") {
                         match k {
                             "fp" => {
